@@ -28,7 +28,7 @@ HR = CC + "HostnameRuleDb"
 
 
 def check(run):
-    for cfg in ("A", "B"):
+    for cfg in run.cfgs("A", "B"):
         F = run.facts(cfg)
         run.guard("C16.1.hash-agreement", cfg, lambda: rule_hash(run, F, cfg))
         run.guard("C16.2.bin-pairing", cfg, lambda: rule_pairing(run, F, cfg))
